@@ -15,6 +15,9 @@ const CORE_D = ['assignSame', 'fnNoJsx', 'arrowNoJsx', 'arrowBlockNoJsx', 'userS
 const CORE = ALL.filter((it) => (it.d ? CORE_D.includes(it.d) : CORE_K.includes(it.k) && CORE_L.includes(it.l)));
 const MINI = ALL.filter((it) => (it.d ? ['assignSame', 'arrowNoJsx', 'userSlot', 'selfAssign', 'fnNoJsx'].includes(it.d) : ['stmt', 'arrowExpr', 'field', 'defparam', 'loopBare'].includes(it.k) && ['identChild', 'callChild', 'frag'].includes(it.l)));
 
+// items that carry element-level state (used as second components of pairs in option-specific spaces)
+const STATE_D = ALL.filter((it) => it.d && ['memberNativeTag', 'nativeChildren', 'typeCheckboxNoDir', 'typeDynNoDir', 'tplChildComp', 'tplChildFrag', 'tplChildEl', 'singleChildEl', 'nestedSingle', 'attrBareJsx', 'dirThenBareJsx'].includes(it.d));
+
 function onceOk(items) {
   const seen = new Set();
   for (const it of items) if (it.d && H.D[it.d].once) { const g = H.D[it.d].group || it.d; if (seen.has(g)) return false; seen.add(g); }
@@ -96,4 +99,4 @@ function* shrinkItems(items) {
 
 const key = (items) => items.map(H.itemKey).join(' ; ') || '(empty)';
 
-module.exports = { ALL, FOCUS, CORE, MINI, spaces, shrinkItems, key, onceOk, skeleton, canonicalSpace };
+module.exports = { STATE_D, ALL, FOCUS, CORE, MINI, spaces, shrinkItems, key, onceOk, skeleton, canonicalSpace };
